@@ -323,7 +323,7 @@ _many_common = dict(
     raises={'CallbackError': {'post': {'estimates_untouched': lambda c: c.new.importance_values.t == c.old.importance_values.t}}},
     ghost_out={'MP': (PredT, lambda c: c.run.env['marginal_prediction'].t),
                'OUTS': (PredList, lambda c: c.run.env['all_predictions'].t),
-               'CS': (DictList, lambda c: c.run.last_loop.g.CS.t)},
+               'CS': (DictList, lambda c: c.run.last_loop.g.CS.t if c.run.last_loop is not None else DictList.empty())},
     lemmas=_many_post_lemmas, exit_cuts=_many_steps(),
 )
 
